@@ -36,8 +36,9 @@ def main():
         return 0
     n = int(sys.argv[2]) if len(sys.argv) > 2 else 300
     props = sys.argv[3].split(",") if len(sys.argv) > 3 else ["C02", "C05", "C07", "C08", "C13", "C14"]
-    bad = 0
+    total_bad = 0
     for prop in props:
+        bad = 0
         a = digests(prop, 0, n)
         b = digests(prop, 0, n)
         if a != b:
@@ -55,7 +56,8 @@ def main():
                 print("NONDETERMINISTIC fresh interpreter", prop, "PYTHONHASHSEED=" + hs, diff, r.stderr[-300:])
                 bad += 1
         print(prop, "ok" if not bad else "BAD", ref[:12])
-    return 1 if bad else 0
+        total_bad += bad
+    return 1 if total_bad else 0
 
 
 if __name__ == "__main__":
